@@ -1161,6 +1161,10 @@ class Run:
             ctx_items.update(run_status=1, run_signal='ERR', time_run=when, time_run_exit=when)
         elif state == 'submission failed':
             ctx_items['job_runner_exit_polled'] = 1
+        elif state == 'killed':
+            # the job died without running its error trap (SIGKILL, node lost): it had started, it is gone
+            # from the job runner, and the job status file has neither an exit time nor a run status
+            ctx_items.update(time_run=when, job_runner_exit_polled=1)
         elif state.startswith('failed/'):
             # killed by a signal and gone from the job runner -> message "failed/<SIGNAL>"
             ctx_items.update(run_status=1, run_signal=state.split('/', 1)[1], time_run=when, time_run_exit=when,
@@ -1319,6 +1323,8 @@ class Run:
         for kind, payload in emitted:
             if kind == 'msg' and payload in ('started', 'succeeded', 'failed'):
                 truth = payload
+            elif kind == 'pollmsg' and payload == 'killed':
+                truth = 'killed'
             elif kind == 'msg' and payload.split('/')[0] in ('failed', 'aborted'):
                 # a poll reports an error-trap failure as plain failed, a signal-killed job with its signal
                 sig = payload.split('/', 1)[1]
@@ -1433,7 +1439,10 @@ class Run:
                 return next((qn for qn, q in queues.items() if name in q.members), None)
             pooled = sorted(tp.get_tasks(), key=lambda t: (int(t.point), t.tdef.name))
             cand = [t for t in pooled if t.state.status == 'waiting']
-            if rng.random() < 0.9:
+            if rng.random() < pol.get('p_fresh_trigger', 0.6):
+                # (policy p_fresh_trigger, default 0.6: in two of five commands repeated triggers of a task that still
+                # waits on job preparation and triggers of held tasks are allowed - the class of the repaired finding
+                # queued-and-started, kept explored so that a regression shows up in generated runs too)
                 # a task that was triggered already and still waits for the main loop to prepare its job is only
                 # rarely triggered again, and a held task is rarely triggered (finding queued-and-started: a second
                 # trigger / a release from hold queues the task although it is about to run; the rest of such a run
@@ -1678,6 +1687,25 @@ class Run:
                         outs.append('nope')
                     if r > 0.9 and custom:
                         outs = [rng.choice(custom)]
+                if pol.get('nf2'):
+                    # additive (C29, option 'nf2'): repeat the last no-flow set of an inactive instance in a real flow
+                    last = getattr(self, '_nf2_last', None)
+                    if last is not None and rng.random() < 0.7:
+                        p, n, outs = last
+                        flow = [] if active and rng.random() < 0.5 else [str(rng.randint(1, int(self.schd.flow_mgr.counter) or 1))]
+                        wait = False
+                        args = {'tasks': [f'{p}/{n}'], 'flow': flow, 'flow_wait': wait}
+                        self._nf2_last = None
+                    else:
+                        away = sorted(set(map(tuple, insts)) - set(pooled))
+                        if away and rng.random() < 0.3:
+                            # a no-flow set of an instance that is not in the pool (standard outputs only)
+                            p, n = rng.choice(away)
+                            outs = [o for o in outs if o in std]
+                            flow, wait = ['none'], False
+                            args = {'tasks': [f'{p}/{n}'], 'flow': flow, 'flow_wait': wait}
+                        if flow == ['none'] and (p, n) not in pooled:
+                            self._nf2_last = (p, n, list(outs))
                 args['outputs'] = outs
             else:
                 d = tdefs.get(n, {}).get('inst', {}).get(str(p)) or {'pre': []}
@@ -1772,6 +1800,13 @@ class Run:
                 return None
             variants = self.case.get('variants') or [{'tag': 'same', 'flow': self.case['flow']}]
             v = rng.choice(variants)
+            if pol.get('p_orphan_started') and rng.random() < pol['p_orphan_started']:
+                # additive (C27, off unless the policy sets p_orphan_started): prefer a definition that lacks a pooled
+                # task which has already started (active, or finished and retained as incomplete)
+                started = {t.tdef.name for t in self.schd.pool.get_tasks() if t.state.status != 'waiting'}
+                hits = [w for w in variants if w.get('tasks') is not None and started - set(w['tasks'])]
+                if hits:
+                    v = rng.choice(hits)
             return {'op': 'reload', 'flow': v['flow'], 'tag': v['tag'],
                     'inloop': rng.random() < pol.get('p_inloop', 0.5)}
         if kind in ('hold', 'release'):
@@ -1852,6 +1887,9 @@ class Run:
         for i, (kind, payload) in enumerate(plan):
             if kind == 'msg' and payload == 'failed' and pol.get('fail_signals'):
                 payload = rng.choice(self.FAIL_FORMS)
+                if pol.get('silent_kill') and payload == 'failed/XCPU':
+                    # killed without running the error trap: no message at all, only a poll finds out
+                    kind, payload = 'pollmsg', 'killed'
             if kind == 'msg' and i < len(plan) - 1 and pol.get('p_lose') and rng.random() < pol['p_lose']:
                 continue
             out.append((kind, payload))
